@@ -59,6 +59,8 @@ func Main(args []string) int {
 		return cmdReplay(args[1:])
 	case "names":
 		return cmdNames(args[1:])
+	case "mapranges":
+		return cmdMapRanges()
 	case "writers":
 		return cmdWriters(args[1:])
 	case "scenario":
